@@ -235,9 +235,16 @@ impl SelPath {
     }
 }
 
-/// Does a variable declared with type `supplied` satisfy an argument of type `target`?  (The
-/// compiler's `variable_type_satisfies_argument_type`: equal, or differing only in the OUTER
-/// nullability with the variable being the stricter one.)
-pub fn variable_type_satisfies(supplied: &TypeRef, target: &TypeRef) -> bool {
+/// Does a variable declared with type `supplied` satisfy an argument of type `target` according
+/// to GraphQL-style rules as the compiler INTENDS them (`variable_type_satisfies_argument_type`):
+/// equal, or differing only in the OUTER nullability with the variable being the stricter one.
+pub fn variable_type_satisfies_intended(supplied: &TypeRef, target: &TypeRef) -> bool {
     supplied == target || (target.is_nullable() && supplied.nullable() == *target)
+}
+
+/// What the compiler actually ACCEPTS today: as above, but a target type that contains a
+/// nullable list anywhere is never satisfied by any variable (list annotations are compared
+/// together with their source locations).
+pub fn variable_type_satisfies(supplied: &TypeRef, target: &TypeRef) -> bool {
+    crate::gen::accepts_variable(target) && variable_type_satisfies_intended(supplied, target)
 }
